@@ -1,5 +1,6 @@
 import BronVerif.Lemmas.Paillier
 import BronVerif.Lemmas.PaillierHom
+import BronVerif.Lemmas.PaillierSk
 import BronVerif.Model.ElGamal
 import Mathlib.Algebra.Group.Basic
 import Mathlib.Tactic.NormNum.Prime
@@ -9,7 +10,9 @@ import Mathlib.Tactic.NormNum.GCD
 
 All Paillier statements are about the definitions of `Model/Paillier.lean` that the driver executes
 on every harness line (`enc`, `dec`, `ctMul`, `ctScalar`, `shift`, `rerand`, `toSym`/`fromSym`,
-`decCRT`); the ElGamal statements are about `Model/ElGamal.lean` instantiated with an arbitrary
+`decCRT`, `openCRT`, and the secret-key mirrors `powModSk`, `ctScalarSk`, `noiseSk`, `encSk`,
+`rerandSk`, … which the driver evaluates next to the textbook value on every secret-key line);
+the ElGamal statements are about `Model/ElGamal.lean` instantiated with an arbitrary
 commutative group (the driver instantiates the same definitions with the curve arithmetic).
 -/
 namespace BronVerif.Props.C16
@@ -112,6 +115,9 @@ theorem decWith_enc {N lam m r : ℕ} (hN : 1 < N) (hm : m < N) (hlamN : Nat.Cop
   have e : m * lam % N * invModD (lam % N) N ≡ m [MOD N] := by simpa using e1.trans e3
   exact Eq.trans e (Nat.mod_eq_of_lt hm)
 
+example : decWith 35 12 (enc 35 17 3) = 17 :=   -- λ = lcm(4, 6) = 12, 3^12 ≡ 1 (mod 35)
+  decWith_enc (by norm_num) (by norm_num) (by norm_num) (by decide)
+
 /-- **Textbook decryption inverts encryption**: for `N = p·q` (distinct primes, `gcd(N, φ(N)) = 1`),
 every plaintext `m < N` and every nonce `r ∈ ℤ_N^*`, `dec p q (enc N m r) = m`. -/
 theorem paillier_dec_enc {p q m r : ℕ} (hp : p.Prime) (hq : q.Prime) (hpq : p ≠ q)
@@ -188,6 +194,9 @@ theorem paillier_dec_op {p q m1 r1 m2 r2 : ℕ} (hp : p.Prime) (hq : q.Prime) (h
     rw [Nat.Coprime, ← Nat.gcd_rec, Nat.gcd_comm]
     exact Nat.Coprime.mul_left hr1 hr2
 
+example : dec 11 13 (ctMul (11 * 13) (enc (11 * 13) 100 17) (enc (11 * 13) 99 5)) = (100 + 99) % (11 * 13) :=
+  paillier_dec_op (by norm_num) (by norm_num) (by norm_num) (by norm_num) (by norm_num) (by norm_num)
+
 /-- **Symmetric plaintext range**: on `-N/2 ≤ x < N/2` the embedding into `ℤ_N` is inverted by
 `Normalise` (`toSym`); conversely every residue is the image of its normal form, which lies in the
 range up to the single tie `x = N/2` for even `N` (Paillier moduli are odd). -/
@@ -202,15 +211,142 @@ theorem symmetric_range_inv {N : ℕ} (hN : 0 < N) {m : ℕ} (hm : m < N) :
     fromSym N (toSym N m) = m ∧ -(N : ℤ) ≤ 2 * toSym N m ∧ 2 * toSym N m ≤ N :=
   sym_roundtrip_inv hN hm
 
+example : fromSym 143 (toSym 143 72) = 72 ∧ -(143 : ℤ) ≤ 2 * toSym 143 72 ∧ 2 * toSym 143 72 ≤ 143 :=
+  symmetric_range_inv (by norm_num) (by norm_num)
+
+/-! ### the secret-key paths: CRT / Fermat-quotient decryption, N-th root by CRT, CRT arithmetic -/
+
+/-- **`SecretKey.Decrypt` is correct**: for `N = p·q`, `p ≠ q` primes with `gcd(N, φ(N)) = 1` (which
+forces both to be odd), the Fermat-quotient decryption `m_p = L_p(c^{p−1} mod p²)·(−q⁻¹) mod p`,
+`m_q` likewise, recombined by Garner's formula, returns `m` for every plaintext `m < N` and every
+unit nonce `r`, on the textbook ciphertext `c = (1+N)^m r^N mod N²`. -/
+theorem paillier_crt_decrypt {p q m r : ℕ} (hp : p.Prime) (hq : q.Prime) (hpq : p ≠ q)
+    (hco : Nat.Coprime (p * q) ((p - 1) * (q - 1))) (hm : m < p * q) (hr : Nat.Coprime r (p * q)) :
+    decCRT p q (enc (p * q) m r) = m :=
+  decCRT_enc ⟨hp, hq, hpq, hco⟩ hm hr
+
+example : decCRT 5 7 (enc (5 * 7) 17 3) = 17 :=
+  paillier_crt_decrypt (by norm_num) (by norm_num) (by norm_num) (by norm_num) (by norm_num) (by norm_num)
+
+example : decCRT 11 7 (enc (11 * 7) 76 76) = 76 :=   -- p > q, m = r = N − 1
+  paillier_crt_decrypt (by norm_num) (by norm_num) (by norm_num) (by norm_num) (by norm_num) (by norm_num)
+
+/-- **`SecretKey.Open` is correct**: it returns the plaintext and the nonce reduced modulo `N`
+(`y = c·(1 − mN) mod N²`, then the `q⁻¹ mod (p−1)`-th power of `y mod p`, the `p⁻¹ mod (q−1)`-th
+power of `y mod q`, recombined), and the returned pair re-encrypts to `c`. -/
+theorem paillier_open_nonce {p q m r : ℕ} (hp : p.Prime) (hq : q.Prime) (hpq : p ≠ q)
+    (hco : Nat.Coprime (p * q) ((p - 1) * (q - 1))) (hm : m < p * q) (hr : Nat.Coprime r (p * q)) :
+    openCRT p q (enc (p * q) m r) = (m, r % (p * q)) ∧
+      enc (p * q) (openCRT p q (enc (p * q) m r)).1 (openCRT p q (enc (p * q) m r)).2
+        = enc (p * q) m r := by
+  have h := openCRT_enc ⟨hp, hq, hpq, hco⟩ hm hr
+  refine ⟨h, ?_⟩
+  rw [h]
+  exact enc_mod_nonce _ _ _
+
+example : openCRT 5 7 (enc (5 * 7) 17 3) = (17, 3 % (5 * 7)) :=
+  (paillier_open_nonce (by norm_num) (by norm_num) (by norm_num) (by norm_num) (by norm_num)
+    (by norm_num)).1
+
+/-- every element of `Z*_{N²}` is the encryption of exactly one `(m, r) ∈ ℤ_N × ℤ_N^*` (existence;
+uniqueness is `paillier_enc_injective`) — so the statements about `enc N m r` cover **every**
+ciphertext `Decrypt`/`Open` accept. -/
+theorem paillier_ct_surjective {p q c : ℕ} (hp : p.Prime) (hq : q.Prime) (hpq : p ≠ q)
+    (hco : Nat.Coprime (p * q) ((p - 1) * (q - 1))) (hc : c < p * q * (p * q))
+    (hcu : Nat.Coprime c (p * q)) :
+    ∃ m r, m < p * q ∧ r < p * q ∧ Nat.Coprime r (p * q) ∧ enc (p * q) m r = c :=
+  exists_enc_eq ⟨hp, hq, hpq, hco⟩ hc hcu
+
+example : ∃ m r, m < 5 * 7 ∧ r < 5 * 7 ∧ Nat.Coprime r (5 * 7) ∧ enc (5 * 7) m r = 1224 :=
+  paillier_ct_surjective (by norm_num) (by norm_num) (by norm_num) (by norm_num) (by norm_num)
+    (by norm_num)
+
 /-- full statement: the CRT formulas of `Decrypt` **and** `Open` agree with textbook decryption and
-nonce recovery on every element of `Z*_{N²}`.  **Not proved here** beyond `paillier_crt_partial`
-below; carried by (a) the driver, which evaluates the model's own `decCRT` next to the textbook
-`dec` on every `dec` line and compares both with the implementation, and (b) for `Open`, the
-re-encryption oracle together with `paillier_enc_injective`. -/
+nonce recovery on every element of `Z*_{N²}`.  Proved as `paillier_crt` below. -/
 def paillier_crt_statement : Prop :=
   ∀ p q c : ℕ, p.Prime → q.Prime → p ≠ q → Nat.Coprime (p * q) ((p - 1) * (q - 1)) →
     c < (p * q) * (p * q) → Nat.Coprime c (p * q) →
     decCRT p q c = dec p q c ∧ openCRT p q c = (dec p q c, recoverNonce p q c (dec p q c))
+
+/-- the full CRT statement holds (no `_partial` left): every unit is an encryption
+(`paillier_ct_surjective`), and on encryptions all four functions are computed above. -/
+theorem paillier_crt : paillier_crt_statement := by
+  intro p q c hp hq hpq hco hc hcu
+  have k : KeyOK p q := ⟨hp, hq, hpq, hco⟩
+  obtain ⟨m, r, hm, hr, hru, rfl⟩ := exists_enc_eq k hc hcu
+  rw [decCRT_enc k hm hru, paillier_dec_enc hp hq hpq hco hm hru, openCRT_enc k hm hru,
+    recoverNonce_enc k hru]
+  exact ⟨rfl, rfl⟩
+
+example : decCRT 5 7 1224 = dec 5 7 1224 ∧ openCRT 5 7 1224 = (dec 5 7 1224, recoverNonce 5 7 1224 (dec 5 7 1224)) :=
+  paillier_crt 5 7 1224 (by norm_num) (by norm_num) (by norm_num) (by norm_num) (by norm_num) (by norm_num)
+
+/-- **CRT exponentiation is exact** (`OddPrimeSquareFactors.ModExp` modulo `N²`,
+`OddPrimeFactors.ModExp` modulo `N`): residues modulo `p²`, `q²` (resp. `p`, `q`) with the exponent
+reduced modulo `φ(p²)`, `φ(q²)` (resp. `p−1`, `q−1`) **only when the base is coprime to that prime**
+(the code's `Select(base.Coprime(p), exp, ep)`), Garner-recombined, give `b^e` for **every** base and
+exponent — units and non-units. -/
+theorem crt_exponentiation {p q : ℕ} (hp : p.Prime) (hq : q.Prime) (hpq : p ≠ q)
+    (hco : Nat.Coprime (p * q) ((p - 1) * (q - 1))) (b e : ℕ) :
+    powModSk p q b e = b ^ e % (p * q * (p * q)) ∧ powModSkN p q b e = b ^ e % (p * q) := by
+  have k : KeyOK p q := ⟨hp, hq, hpq, hco⟩
+  rw [powModSk_eq k, powModSkN_eq k, powMod_eq, powMod_eq]
+  exact ⟨rfl, rfl⟩
+
+example : powModSk 5 7 10 1000 = 10 ^ 1000 % (5 * 7 * (5 * 7)) :=   -- non-unit base, exponent > φ(N²)
+  (crt_exponentiation (by norm_num) (by norm_num) (by norm_num) (by norm_num) 10 1000).1
+
+/-- why the guard is there: reducing the exponent modulo `φ(p²)` for a base divisible by `p` is wrong
+(`5^20 ≡ 0 (mod 25)` but `5^(20 mod 20) = 1`). -/
+theorem crt_exp_guard_needed :
+    powModCRTUnguarded (5 * 5) (7 * 7) ((5 - 1) * 5) ((7 - 1) * 7) 5 20 ≠ 5 ^ 20 % (5 * 7 * (5 * 7)) := by
+  intro h
+  have h1 := crt_modEq_left (p := 5 * 5) (q := 7 * 7) (by norm_num) (by norm_num)
+    (powMod 5 (20 % ((5 - 1) * 5)) (5 * 5)) (powMod 5 (20 % ((7 - 1) * 7)) (7 * 7))
+  unfold powModCRTUnguarded at h
+  rw [h, powMod_eq] at h1
+  revert h1
+  unfold Nat.ModEq
+  norm_num
+
+/-- **Every secret-key-accelerated operation of the API equals the public-key operation and the
+textbook formula modulo `N²`** (resp. `N` for nonces).  Guards: exactly the ones the methods enforce —
+ciphertexts and nonces are units (`Contains` / the `Nonce`, `Ciphertext` type invariant); plaintexts
+and scalars are arbitrary.
+1. `Representative` (both key kinds: `1 + m·N`) is `(1+N)^m`;
+2. `SecretKey.IdentityNoise` (`ExpToN`) is `r^N mod N²`;
+3. `SecretKey.EncryptWithNonce` and `PublicKey.EncryptWithNonce` are the textbook `enc`;
+4. `SecretKey.CiphertextScalarOp` (`ModExpI`: CRT power, CRT inverse if negative) is the public `c^k`;
+5. `SecretKey.CiphertextOpInv` (CRT inverse) is the inverse modulo `N²`;
+6. `SecretKey.ReRandomise` is the public re-randomisation;
+7. `Shift` through the linear representative is the textbook shift;
+8. `SecretKey.NonceScalarOp` / `NonceOp` (CRT modulo `p`, `q`) are the public nonce power / product. -/
+theorem sk_ops_eq_pk_ops {p q : ℕ} (hp : p.Prime) (hq : q.Prime) (hpq : p ≠ q)
+    (hco : Nat.Coprime (p * q) ((p - 1) * (q - 1))) :
+    (∀ m, repLin (p * q) m = rep (p * q) m) ∧
+    (∀ r, Nat.Coprime r (p * q) → noiseSk p q r = noise (p * q) r) ∧
+    (∀ m r, Nat.Coprime r (p * q) →
+      encSk p q m r = enc (p * q) m r ∧ encPk (p * q) m r = enc (p * q) m r) ∧
+    (∀ c (k : ℤ), Nat.Coprime c (p * q) → ctScalarSk p q c k = ctScalar (p * q) c k) ∧
+    (∀ c, Nat.Coprime c (p * q) → invModSk p q c = ctInv (p * q) c) ∧
+    (∀ c s, Nat.Coprime s (p * q) → rerandSk p q c s = rerand (p * q) c s) ∧
+    (∀ c d, shiftLin (p * q) c d = shift (p * q) c d) ∧
+    (∀ r (k : ℤ), Nat.Coprime r (p * q) → nonceScalarSk p q r k = nonceScalar (p * q) r k) ∧
+    (∀ a b, nonceMulSk p q a b = nonceMul (p * q) a b) := by
+  have k : KeyOK p q := ⟨hp, hq, hpq, hco⟩
+  exact ⟨repLin_eq_rep _, fun r hr => noiseSk_eq k hr,
+    fun m r hr => ⟨encSk_eq k m hr, encPk_eq _ m r⟩,
+    fun c s hc => ctScalarSk_eq k hc s, fun c hc => invModSk_eq k hc,
+    fun c s hs => rerandSk_eq k c hs, shiftLin_eq _, fun r s hr => nonceScalarSk_eq k hr s,
+    nonceMulSk_eq k⟩
+
+example : ctScalarSk 5 7 (enc (5 * 7) 17 3) (-100000) = ctScalar (5 * 7) (enc (5 * 7) 17 3) (-100000) :=
+  (sk_ops_eq_pk_ops (by norm_num) (by norm_num) (by norm_num) (by norm_num)).2.2.2.1 _ _
+    (enc_coprime _ _ (by norm_num))
+
+example : encSk 7 11 76 76 = enc (7 * 11) 76 76 :=
+  ((sk_ops_eq_pk_ops (by norm_num) (by norm_num) (by norm_num) (by norm_num)).2.2.1 76 76
+    (by norm_num)).1
 
 /-! ## ElGamal in any commutative group -/
 section elgamal
@@ -238,6 +374,40 @@ theorem elgamal_scalar (g h m : G) (r k : ℕ) :
     ElGamal.ctScalar (groupOps G) (ElGamal.enc (groupOps G) g h m r) k
       = ElGamal.enc (groupOps G) g h (m ^ k) (r * k) := by
   simp only [ElGamal.ctScalar, ElGamal.enc, groupOps, mul_pow, pow_mul]
+
+/-- `CiphertextScalarOp` (the name used by the property text): both components are scaled, the
+result encrypts `m^k` under the nonce `r·k` -/
+theorem elgamal_scalar_op (g h m : G) (r k : ℕ) :
+    ElGamal.ctScalar (groupOps G) (ElGamal.enc (groupOps G) g h m r) k
+      = ElGamal.enc (groupOps G) g h (m ^ k) (r * k) := elgamal_scalar g h m r k
+
+/-- `CiphertextOpInv`: component-wise inverse; it decrypts to the inverse plaintext -/
+theorem elgamal_inv (g m : G) (a r : ℕ) :
+    ElGamal.dec (groupOps G) a
+      (ElGamal.ctInv (groupOps G) (ElGamal.enc (groupOps G) g (ElGamal.pub (groupOps G) g a) m r)) = m⁻¹ := by
+  simp only [ElGamal.dec, ElGamal.ctInv, ElGamal.enc, ElGamal.pub, groupOps]
+  rw [← pow_mul, inv_pow, inv_inv, ← pow_mul, mul_comm r a, mul_inv, inv_mul_cancel_right]
+
+/-- decryption is a group homomorphism on **arbitrary** ciphertext pairs (not only honest
+encryptions): product, inverse, scalar, shift act on the decrypted plaintexts as the group
+operation, inverse, power and multiplication, and re-randomisation under `h = g^a` as the identity. -/
+theorem elgamal_dec_hom (g d : G) (a k s : ℕ) (c c' : G × G) :
+    ElGamal.dec (groupOps G) a (ElGamal.ctOp (groupOps G) c c')
+        = ElGamal.dec (groupOps G) a c * ElGamal.dec (groupOps G) a c' ∧
+    ElGamal.dec (groupOps G) a (ElGamal.ctInv (groupOps G) c) = (ElGamal.dec (groupOps G) a c)⁻¹ ∧
+    ElGamal.dec (groupOps G) a (ElGamal.ctScalar (groupOps G) c k) = (ElGamal.dec (groupOps G) a c) ^ k ∧
+    ElGamal.dec (groupOps G) a (ElGamal.shift (groupOps G) c d) = ElGamal.dec (groupOps G) a c * d ∧
+    ElGamal.dec (groupOps G) a (ElGamal.rerand (groupOps G) g (ElGamal.pub (groupOps G) g a) c s)
+        = ElGamal.dec (groupOps G) a c := by
+  simp only [ElGamal.dec, ElGamal.ctOp, ElGamal.ctInv, ElGamal.ctScalar, ElGamal.shift,
+    ElGamal.rerand, ElGamal.pub, groupOps]
+  refine ⟨?_, ?_, ?_, ?_, ?_⟩
+  · rw [mul_pow, mul_inv, mul_mul_mul_comm]
+  · rw [inv_pow, mul_inv]
+  · rw [mul_pow, inv_pow, ← pow_mul, ← pow_mul, mul_comm a k]
+  · rw [mul_right_comm]
+  · rw [mul_pow, mul_inv, ← pow_mul, ← pow_mul, mul_comm s a, mul_mul_mul_comm, mul_inv_cancel,
+      mul_one]
 
 /-- re-randomisation keeps the plaintext (resulting nonce `r + s`) -/
 theorem elgamal_rerandomise (g h m : G) (r s : ℕ) :
@@ -269,6 +439,22 @@ example : ElGamal.dec (groupOps (Multiplicative (ZMod 7))) 3
     = Multiplicative.ofAdd 5 := elgamal_dec_enc _ _ _ _
 
 example : (Multiplicative.ofAdd (1 : ZMod 7)) ^ 7 = 1 := by decide
+
+-- an arbitrary (not honestly generated) ciphertext pair, secret exponent n − 1
+example : ElGamal.dec (groupOps (Multiplicative (ZMod 7))) 6
+    (ElGamal.ctScalar (groupOps _) (Multiplicative.ofAdd 2, Multiplicative.ofAdd 3) 5)
+    = (ElGamal.dec (groupOps _) 6 (Multiplicative.ofAdd 2, Multiplicative.ofAdd 3)) ^ 5 :=
+  (elgamal_dec_hom (Multiplicative.ofAdd (1 : ZMod 7)) 1 6 5 0 _ (1, 1)).2.2.1
+
+-- identity plaintext, zero nonce: the inverse ciphertext decrypts to the inverse
+example : ElGamal.dec (groupOps (Multiplicative (ZMod 7))) 6
+    (ElGamal.ctInv (groupOps _) (ElGamal.enc (groupOps _) (Multiplicative.ofAdd 1)
+      (ElGamal.pub (groupOps _) (Multiplicative.ofAdd 1) 6) 1 0)) = 1⁻¹ := elgamal_inv _ _ _ _
+
+example : ElGamal.ctScalar (groupOps (Multiplicative (ZMod 7)))
+    (ElGamal.enc (groupOps _) (Multiplicative.ofAdd 1) (Multiplicative.ofAdd 3) (Multiplicative.ofAdd 5) 6) 4
+    = ElGamal.enc (groupOps _) (Multiplicative.ofAdd 1) (Multiplicative.ofAdd 3)
+        ((Multiplicative.ofAdd 5) ^ 4) (6 * 4) := elgamal_scalar_op _ _ _ _ _
 
 end elgamal
 
